@@ -988,8 +988,9 @@ class ParserElement(ABC):
                 try:
                     value = self._parseNoCache(instring, loc, do_actions, callPreParse)
                 except ParseBaseException as pe:
-                    # cache a copy of the exception, without the traceback
-                    cache.set(lookup, pe.__class__(*pe.args))
+                    # cache a copy of the exception as it is being raised (current
+                    # loc, msg and element), without the traceback
+                    cache.set(lookup, type(pe)._from_exception(pe))
                     raise
                 else:
                     cache.set(lookup, (value[0], value[1].copy(), loc))
@@ -1009,7 +1010,9 @@ class ParserElement(ABC):
                             )
                         except TypeError:
                             pass
-                    raise value
+                    # raise a copy, so that callers that update the exception
+                    # they catch do not modify the cached one
+                    raise type(value)._from_exception(value)
 
                 value = cast(tuple[int, ParseResults, int], value)
                 loc_, result, endloc = value[0], value[1].copy(), value[2]
